@@ -87,7 +87,7 @@ func (in *Interp) allocN(n uint64, t *Type) VLoc {
 	cells := make([]Val, 0, int(n)*sz)
 	z := flatten(zeroVal(t), nil)
 	for i := uint64(0); i < n; i++ {
-		in.tick()
+		in.work()
 		cells = append(cells, z...)
 	}
 	return in.alloc(cells)
@@ -363,7 +363,7 @@ func init() {
 		nc := in.makeCap(n + k)
 		np := in.allocN(nc, t)
 		for i := uint64(0); i < n; i++ {
-			in.tick()
+			in.work()
 			in.storeTy(th, t, locAdd(np, int(i)*sz), in.loadTy(th, t, locAdd(p, int(i)*sz)))
 		}
 		for i, x := range elems {
@@ -380,7 +380,7 @@ func init() {
 		sz := tySize(t)
 		elems := make([]Val, n2)
 		for i := uint64(0); i < n2; i++ {
-			in.tick()
+			in.work()
 			elems[i] = in.loadTy(th, t, locAdd(p2, int(i)*sz))
 		}
 		if n2 == 0 {
@@ -400,7 +400,7 @@ func init() {
 		}
 		sz := tySize(t)
 		for i := uint64(0); i < n; i++ {
-			in.tick()
+			in.work()
 			in.storeTy(th, t, locAdd(pd, int(i)*sz), in.loadTy(th, t, locAdd(ps, int(i)*sz)))
 		}
 		return VInt{n}
@@ -490,7 +490,7 @@ func init() {
 		p, n, _ := asSlice(a[0], "StringFromBytes")
 		b := make([]byte, n)
 		for i := uint64(0); i < n; i++ {
-			in.tick()
+			in.work()
 			c, ok := (*in.cell(th, locAdd(p, int(i)), false)).(VU8)
 			if !ok {
 				stuck("StringFromBytes: element %d is not a byte", i)
